@@ -396,15 +396,17 @@ func (d *dnsServer) parseQuery(m *dns.Msg, w dns.ResponseWriter) {
 	// exist at all.
 	anyNameExists := false
 	for _, q := range m.Question {
+		// Whether the name exists does not depend on the type asked for, a known name must never turn into NXDOMAIN
+		ip, nameExists := d.Query(q.Qtype, q.Name)
+		if nameExists {
+			anyNameExists = true
+		}
+
 		switch q.Qtype {
 		case dns.TypeA, dns.TypeAAAA:
 			qType := dns.TypeToString[q.Qtype]
 			if debugEnabled {
 				d.l.Debug("DNS query", "type", qType, "name", q.Name)
-			}
-			ip, nameExists := d.Query(q.Qtype, q.Name)
-			if nameExists {
-				anyNameExists = true
 			}
 			if ip.IsValid() {
 				rr, err := dns.NewRR(fmt.Sprintf("%s %s %s", q.Name, qType, ip))
